@@ -514,13 +514,52 @@ func (e *c07Env) corrupt(ca *c07Args) string {
 }
 
 type c07Tx struct {
-	tx       *ethtypes.Transaction
-	exact    bool // data is the encoding of the message with a non-empty signature prefix
-	foreign  bool // sent to an address that is not the compass contract of the chain
-	what     string
-	status   int // 1 ok, 0 failed, -1 no receipt
-	log      bool
-	proofAny *codectypes.Any
+	tx      *ethtypes.Transaction
+	exact   bool // data is the encoding of the message with a non-empty signature prefix
+	foreign bool // sent to an address that is not the compass contract of the chain
+	what    string
+	status  int // receipt the relayer's transaction really got: 1 ok, 0 failed, -1 no receipt
+	log     bool
+}
+
+// c07Ev is ONE validator's evidence for a message.  Validators need not agree: neither on the
+// transaction nor on its receipt.
+type c07Ev struct {
+	val     int    // validator index
+	kind    string // "tx" | "err"
+	tx      *c07Tx // kind tx
+	status  int    // receipt status this validator reports (1, 0, -1 = no receipt)
+	log     bool   // receipt carries the ContractDeployed log
+	variant int    // anything else in the receipt (cumulative gas used)
+}
+
+// norm: without a receipt there is nothing the log flag or the variant could be part of.
+func (v c07Ev) norm() c07Ev {
+	if v.kind == "tx" && v.status < 0 {
+		v.log, v.variant = false, 0
+	}
+	return v
+}
+
+// key identifies the serialized proof: evidence is byte-identical iff the keys agree.
+func (v c07Ev) key() string {
+	v = v.norm()
+	if v.kind != "tx" {
+		return "err"
+	}
+	return fmt.Sprintf("tx/%s/%d/%v/%d", v.tx.tx.Hash().Hex(), v.status, v.log, v.variant)
+}
+
+func (v c07Ev) token() string {
+	v = v.norm()
+	if v.kind != "tx" {
+		return fmt.Sprintf("%d;err;1", v.val+1)
+	}
+	st := "-"
+	if v.status >= 0 {
+		st = fmt.Sprint(v.status)
+	}
+	return fmt.Sprintf("%d;tx;%s;%s;%s;%s;%d", v.val+1, new(big.Int).SetBytes(v.tx.tx.Hash().Bytes()), st, c05X(v.tx.tx.Data()), c07B(v.log), v.variant)
 }
 
 func (e *c07Env) mkTx(to *common.Address, data []byte) *ethtypes.Transaction {
@@ -535,11 +574,11 @@ func (e *c07Env) mkTx(to *common.Address, data []byte) *ethtypes.Transaction {
 	return tx
 }
 
-func (e *c07Env) receipt(status int, withLog bool) []byte {
+func (e *c07Env) receipt(status int, withLog bool, variant int) []byte {
 	if status < 0 {
 		return nil
 	}
-	rc := &ethtypes.Receipt{Type: ethtypes.DynamicFeeTxType, Status: uint64(status), CumulativeGasUsed: 21000}
+	rc := &ethtypes.Receipt{Type: ethtypes.DynamicFeeTxType, Status: uint64(status), CumulativeGasUsed: 21000 + uint64(variant)}
 	// an unrelated log first, then (optionally) the ContractDeployed event
 	rc.Logs = append(rc.Logs, &ethtypes.Log{Address: common.HexToAddress("0xC0"), Topics: []common.Hash{ethcrypto.Keccak256Hash([]byte("Other()"))}})
 	if withLog {
@@ -557,16 +596,32 @@ func (e *c07Env) receipt(status int, withLog bool) []byte {
 	return bz
 }
 
-func (e *c07Env) proof(tx *ethtypes.Transaction, status int, withLog bool) *codectypes.Any {
-	raw, err := tx.MarshalBinary()
+func (e *c07Env) proof(v c07Ev) *codectypes.Any {
+	if v.kind != "tx" {
+		any, err := codectypes.NewAnyWithValue(&evmtypes.SmartContractExecutionErrorProof{ErrorMessage: "boom"})
+		if err != nil {
+			e.t.Fatal(err)
+		}
+		return any
+	}
+	raw, err := v.tx.tx.MarshalBinary()
 	if err != nil {
 		e.t.Fatal(err)
 	}
-	any, err := codectypes.NewAnyWithValue(&evmtypes.TxExecutedProof{SerializedTX: raw, SerializedReceipt: e.receipt(status, withLog)})
+	any, err := codectypes.NewAnyWithValue(&evmtypes.TxExecutedProof{SerializedTX: raw, SerializedReceipt: e.receipt(v.status, v.log, v.variant)})
 	if err != nil {
 		e.t.Fatal(err)
 	}
 	return any
+}
+
+// evs builds evidence of the given validators for one transaction with its real receipt.
+func (tx *c07Tx) evs(vals []int) []c07Ev {
+	var out []c07Ev
+	for _, i := range vals {
+		out = append(out, c07Ev{val: i, kind: "tx", tx: tx, status: tx.status, log: tx.log})
+	}
+	return out
 }
 
 // buildTx builds the transaction a (possibly faulty) relayer reports for the stored message.
@@ -660,16 +715,52 @@ func (e *c07Env) buildTx(s *c07Stored) *c07Tx {
 	if s.msg.GetUploadUserSmartContract() != nil && r.Intn(6) == 0 {
 		out.log = false
 	}
-	out.proofAny = e.proof(out.tx, out.status, out.log)
 	return out
 }
 
-func (e *c07Env) addEvidence(ctx sdk.Context, id uint64, vals []int, proof *codectypes.Any) error {
-	for _, i := range vals {
-		if err := e.fa.App().ConsensusKeeper.AddMessageEvidence(ctx, e.fa.ValAddr(i), &consensustypes.MsgAddEvidence{
-			Proof: proof, MessageID: id, QueueTypeName: e.queue,
+// addEvidence submits the evidence in the given order (the store keeps that order).
+func (e *c07Env) addEvidence(ctx sdk.Context, id uint64, evs []c07Ev) error {
+	for _, v := range evs {
+		if err := e.fa.App().ConsensusKeeper.AddMessageEvidence(ctx, e.fa.ValAddr(v.val), &consensustypes.MsgAddEvidence{
+			Proof: e.proof(v), MessageID: id, QueueTypeName: e.queue,
 		}); err != nil {
 			return err
+		}
+	}
+	return nil
+}
+
+// shares returns every validator's share in the current snapshot and the total.
+func (e *c07Env) shares(ctx sdk.Context) ([]*big.Int, *big.Int) {
+	snap, err := e.fa.App().ValsetKeeper.GetCurrentSnapshot(ctx)
+	if err != nil || snap == nil {
+		e.t.Fatalf("snapshot: %v", err)
+	}
+	out := make([]*big.Int, len(e.fa.Vals))
+	for i, v := range e.fa.Vals {
+		out[i] = big.NewInt(0)
+		if val, ok := snap.GetValidator(v.ValAddr()); ok {
+			out[i] = val.ShareCount.BigInt()
+		}
+	}
+	return out, snap.TotalShares.BigInt()
+}
+
+// quorumGroup: the byte-identical evidence group that holds 2/3 of the shares (nil if none).
+// This is the property's notion of "the quorum reported", computed from the submitted bytes only.
+func (e *c07Env) quorumGroup(ctx sdk.Context, evs []c07Ev) *c07Ev {
+	sh, total := e.shares(ctx)
+	sum := map[string]*big.Int{}
+	for _, v := range evs {
+		if sum[v.key()] == nil {
+			sum[v.key()] = big.NewInt(0)
+		}
+		sum[v.key()].Add(sum[v.key()], sh[v.val])
+	}
+	for i := range evs {
+		s := sum[evs[i].key()]
+		if s.Sign() > 0 && new(big.Int).Mul(s, big.NewInt(3)).Cmp(new(big.Int).Mul(total, big.NewInt(2))) >= 0 {
+			return &evs[i]
 		}
 	}
 	return nil
@@ -701,11 +792,12 @@ func (e *c07Env) runAttest(parent sdk.Context) (class string) {
 	}
 }
 
-// attest emits the attest op for message id with the given winner and evaluates the monitors.
-// winner: "none", "err", or a transaction.
-func (e *c07Env) attest(ctx sdk.Context, id uint64, winner string, tx *c07Tx, kind string) (class string, fx []string) {
+// attest emits the attestev op for message id with the evidence evs (in store order), runs the
+// real attestation and evaluates the monitors.
+func (e *c07Env) attest(ctx sdk.Context, id uint64, evs []c07Ev, kind string) (class string, fx []string) {
 	before := e.observe(ctx)
 	e.chainLine(before)
+	grp := e.quorumGroup(ctx, evs)
 	class = e.runAttest(ctx)
 	after := e.observe(ctx)
 
@@ -737,15 +829,35 @@ func (e *c07Env) attest(ctx sdk.Context, id uint64, winner string, tx *c07Tx, ki
 			q = append(q, x)
 		}
 	}
-	proc := "-"
-	line := fmt.Sprintf("attest %d %s", id, winner)
-	if tx != nil {
-		proc = c07B(e.isProcessed(ctx, tx.tx.Hash()))
-		st := "-"
-		if tx.status >= 0 {
-			st = fmt.Sprint(tx.status)
+	// processed flag per distinct transaction of the evidence, in order of first appearance
+	var procs []string
+	seenTx := map[common.Hash]bool{}
+	anyProcessed := false
+	for _, v := range evs {
+		if v.kind != "tx" || seenTx[v.tx.tx.Hash()] {
+			continue
 		}
-		line = fmt.Sprintf("attest %d tx %s %s %s %s", id, new(big.Int).SetBytes(tx.tx.Hash().Bytes()), st, c05X(tx.tx.Data()), c07B(tx.log))
+		seenTx[v.tx.tx.Hash()] = true
+		p := e.isProcessed(ctx, v.tx.tx.Hash())
+		anyProcessed = anyProcessed || p
+		procs = append(procs, c07B(p))
+	}
+	proc := "-"
+	if len(procs) > 0 {
+		proc = strings.Join(procs, ",")
+	}
+	sh, total := e.shares(ctx)
+	shs := make([]string, len(sh))
+	for i, x := range sh {
+		shs[i] = fmt.Sprintf("%d:%s", i+1, x)
+	}
+	toks := make([]string, len(evs))
+	for i, v := range evs {
+		toks[i] = v.token()
+	}
+	line := fmt.Sprintf("attestev %d %s %s", id, strings.Join(shs, ","), total)
+	if len(toks) > 0 {
+		line += " " + strings.Join(toks, " ")
 	}
 	fxs := "-"
 	if len(fx) > 0 {
@@ -763,18 +875,24 @@ func (e *c07Env) attest(ctx sdk.Context, id uint64, winner string, tx *c07Tx, ki
 	accepted := len(fx) > 0
 	if kind == "slc" {
 		// a logic call has no keeper-visible success effect; acceptance = committed without error
-		accepted = class == "nil" && removed && tx != nil && e.isProcessed(ctx, tx.tx.Hash())
+		// with a transaction marked as processed
+		accepted = class == "nil" && removed && anyProcessed
 	}
 	if accepted {
 		switch {
-		case tx == nil:
-			e.r.Hit("effects_only_on_accept", "success effects without a transaction proof: "+strings.Join(fx, ","), e.lines)
+		case grp == nil || grp.kind != "tx" || grp.status != 1:
+			what := "no 2/3 group of byte-identical evidence"
+			if grp != nil && grp.kind == "tx" {
+				what = fmt.Sprintf("the 2/3 group reported receipt status %d", grp.status)
+				e.r.Hit("accept_implies_success_receipt", fmt.Sprintf("accepted although the quorum's receipt has status %d", grp.status), e.lines)
+			} else if grp != nil {
+				what = "the 2/3 group reported an execution error"
+			}
+			e.r.Hit("effects_need_quorum_on_success_receipt", "message accepted although "+what+" (success effects: "+fxs+")", e.lines)
 		default:
+			tx := grp.tx
 			if !tx.exact {
 				e.r.Hit("accept_implies_exact_calldata", "accepted a transaction whose call data is not the message's encoding ("+tx.what+")", e.lines)
-			}
-			if tx.status != 1 {
-				e.r.Hit("accept_implies_success_receipt", fmt.Sprintf("accepted with receipt status %d", tx.status), e.lines)
 			}
 			if tx.foreign {
 				e.r.Stat("observed:accepted-tx-not-addressed-to-compass")
@@ -984,50 +1102,90 @@ func (e *c07Env) driveMessage(ctx sdk.Context, id uint64, kind string, caseKey *
 	r.Stat("tx:" + strings.SplitN(tx.what, ":", 2)[0])
 	r.Stat(fmt.Sprintf("receipt:%d", tx.status))
 
-	// 5. evidence
-	winner := "tx"
-	switch r.Rng.Intn(12) {
-	case 0: // no quorum
-		if err := e.addEvidence(ctx, id, c07Perm(r, 1+r.Rng.Intn(2)), tx.proofAny); err != nil {
-			return err
+	// 5. evidence: every validator reports on its own; they need not agree
+	var evs []c07Ev
+	mode := ""
+	perm := r.Rng.Perm(4)
+	junk := func() *c07Tx { return &c07Tx{tx: e.mkTx(nil, []byte{1}), what: "junk", status: 1} }
+	withReceipt := func(vals []int, status int) []c07Ev {
+		out := tx.evs(vals)
+		for i := range out {
+			out[i].status = status
 		}
-		winner = "none"
-		r.Stat("evidence:no-quorum")
-	case 1: // split vote
-		other := e.proof(e.mkTx(nil, []byte{1}), 1, false)
-		p := r.Rng.Perm(4)
-		if err := e.addEvidence(ctx, id, p[:2], tx.proofAny); err != nil {
-			return err
+		return out
+	}
+	switch m := r.Rng.Intn(24); {
+	case m < 2: // too few reports
+		mode = "no-quorum"
+		evs = tx.evs(perm[:1+r.Rng.Intn(2)])
+	case m < 4: // two transactions, 2 : 2
+		mode = "split-tx-2:2"
+		evs = append(tx.evs(perm[:2]), junk().evs(perm[2:])...)
+	case m < 5: // two transactions, 3 : 1, the majority reports ours
+		mode = "split-tx-3:1"
+		evs = append(tx.evs(perm[:3]), junk().evs(perm[3:])...)
+		if r.Rng.Intn(2) == 0 {
+			evs = append(junk().evs(perm[3:]), tx.evs(perm[:3])...)
 		}
-		if err := e.addEvidence(ctx, id, p[2:], other); err != nil {
-			return err
+	case m < 6: // two transactions, ours is the first-listed minority
+		mode = "split-tx-1:3"
+		evs = append(tx.evs(perm[:1]), junk().evs(perm[1:])...)
+	case m < 12: // SAME transaction, validators disagree on the receipt: success vs failed
+		split := [][2]int{{1, 3}, {3, 1}, {2, 2}, {1, 3}, {1, 2}, {2, 1}}[r.Rng.Intn(6)]
+		ok := withReceipt(perm[:split[0]], 1)
+		bad := withReceipt(perm[split[0]:split[0]+split[1]], 0)
+		mode = fmt.Sprintf("split-receipt-%d:%d", split[0], split[1])
+		switch r.Rng.Intn(3) {
+		case 0: // success reports first (first-listed minority when it is one)
+			evs = append(ok, bad...)
+			mode += ":success-first"
+		case 1:
+			evs = append(bad, ok...)
+			mode += ":failed-first"
+		default:
+			evs = append(ok, bad...)
+			r.Rng.Shuffle(len(evs), func(i, j int) { evs[i], evs[j] = evs[j], evs[i] })
+			mode += ":mixed"
 		}
-		winner = "none"
-		r.Stat("evidence:split")
-	case 2: // error proof (kinds whose error handling does not touch the tracked state)
-		if kind == "uv" || kind == "slc" {
-			any, _ := codectypes.NewAnyWithValue(&evmtypes.SmartContractExecutionErrorProof{ErrorMessage: "boom"})
-			if err := e.addEvidence(ctx, id, c07Perm(r, 3), any); err != nil {
-				return err
-			}
-			winner = "err"
-			r.Stat("evidence:error-proof")
-			break
+	case m < 14: // same transaction, same status, receipts differ elsewhere (gas used)
+		mode = "split-receipt-variant"
+		evs = tx.evs(perm)
+		k := 1 + r.Rng.Intn(2)
+		for i := 0; i < k; i++ {
+			evs[i].variant = 1 + r.Rng.Intn(3)
 		}
-		fallthrough
+		if k == 1 {
+			mode += "-1:3"
+		} else {
+			mode += "-2:2"
+		}
+	case m < 15 && (kind == "uv" || kind == "slc"): // error proof (kinds whose error handling does not touch the tracked state)
+		mode = "error-proof"
+		for _, i := range perm[:3] {
+			evs = append(evs, c07Ev{val: i, kind: "err"})
+		}
+		if r.Rng.Intn(2) == 0 {
+			evs = append(tx.evs(perm[3:]), evs...)
+		}
 	default:
-		if err := e.addEvidence(ctx, id, c07Perm(r, 3+r.Rng.Intn(2)), tx.proofAny); err != nil {
-			return err
-		}
+		mode = "unanimous"
+		evs = tx.evs(perm[:3+r.Rng.Intn(2)])
 	}
-	var txp *c07Tx
-	if winner == "tx" {
-		txp = tx
+	r.Stat("evidence:" + mode)
+	if err := e.addEvidence(ctx, id, evs); err != nil {
+		return err
 	}
-	class, fx := e.attest(ctx, id, winner, txp, kind)
+	grp := e.quorumGroup(ctx, evs)
+	winner := "none"
+	if grp != nil {
+		winner = fmt.Sprintf("%s/%d", grp.kind, grp.status)
+	}
+	class, fx := e.attest(ctx, id, evs, kind)
 	r.Stat("class:" + class)
-	*caseKey = fmt.Sprintf("%s/%s/%s/%d/%s/%v", kind, winner, tx.what, tx.status, class, fx)
-	if winner == "tx" && tx.exact && tx.status == 1 {
+	r.Stat("evidence-outcome:" + strings.SplitN(mode, ":success", 2)[0] + ":" + class)
+	*caseKey = fmt.Sprintf("%s/%s/%s/%s/%s/%v", kind, mode, winner, tx.what, class, fx)
+	txWon := grp != nil && grp.kind == "tx" && grp.tx == tx
+	if txWon && tx.exact && grp.status == 1 {
 		r.Stat(fmt.Sprintf("exact-tx:%s:est=%v:sigs=%d:%s:fx=%d", kind, estimated, k, class, len(fx)))
 	}
 	if class == "panic" {
@@ -1038,12 +1196,12 @@ func (e *c07Env) driveMessage(ctx sdk.Context, id uint64, kind string, caseKey *
 			r.Hit("no_unexpected_panic", "attestation panicked", e.lines)
 		}
 	}
-	if !estimated && (kind == "slc" || kind == "usc") && winner == "tx" {
+	if !estimated && (kind == "slc" || kind == "usc") && txWon {
 		r.Stat("early-evidence:" + kind + ":" + class)
 	}
 
 	// 6. follow-ups
-	if winner == "tx" && r.Rng.Intn(3) == 0 && (kind == "uv" || kind == "slc") {
+	if txWon && r.Rng.Intn(3) == 0 && (kind == "uv" || kind == "slc") {
 		// re-submission: a second message with the same content, evidence = the SAME transaction
 		var id2 uint64
 		var err error
@@ -1083,10 +1241,15 @@ func (e *c07Env) driveMessage(ctx sdk.Context, id uint64, kind string, caseKey *
 			}
 		}
 		e.register(ctx, id2)
-		if err := e.addEvidence(ctx, id2, c07Perm(r, 3), tx.proofAny); err != nil {
+		// what the quorum reported for the first message, now for the second one
+		evs2 := tx.evs(c07Perm(r, 3))
+		for i := range evs2 {
+			evs2[i].status, evs2[i].log, evs2[i].variant = grp.status, grp.log, grp.variant
+		}
+		if err := e.addEvidence(ctx, id2, evs2); err != nil {
 			return err
 		}
-		class2, _ := e.attest(ctx, id2, "tx", tx, kind)
+		class2, _ := e.attest(ctx, id2, evs2, kind)
 		r.Stat("resubmit:" + kind + ":" + class2)
 		if class2 == "panic" {
 			r.Hit("no_panic_on_early_evidence", "re-submission panicked the attestation", e.lines)
